@@ -3,6 +3,7 @@ package otto
 import (
 	"errors"
 	"fmt"
+	"strings"
 
 	"github.com/robertkrimen/otto/file"
 )
@@ -210,6 +211,15 @@ func (rt *runtime) panicTypeError(argumentList ...interface{}) *exception {
 	return &exception{
 		value: newError(rt, "TypeError", 0, argumentList...),
 	}
+}
+
+// panicConversionError is the script exception for a value that can't be
+// converted to the Go type it is to be stored as.
+func (rt *runtime) panicConversionError(err error) *exception {
+	if message, ok := strings.CutPrefix(err.Error(), "RangeError: "); ok {
+		return rt.panicRangeError("%s", message)
+	}
+	return rt.panicTypeError("%s", err.Error())
 }
 
 func (rt *runtime) panicReferenceError(argumentList ...interface{}) *exception {
